@@ -192,30 +192,35 @@ func (e *expectation) verdict(desc fmt.Stringer, cfg *ucfg.Config, err error) (g
 	return got, true, nil
 }
 
-func (e *expectation) classes(r *runlog.R) {
+func (e *expectation) classes(add func(string)) {
 	m := e.m
+	addIf := func(cond bool, label string) {
+		if cond {
+			add(label)
+		}
+	}
 	switch {
 	case e.mustFail():
-		r.Class("verdict: duplicate (" + m.conflict + ")")
-		r.ClassIf(m.throughPrim, "duplicate: a dotted key runs through a primitive (ErrExpectedObject accepted too)")
-		r.ClassIf(m.underShared, "duplicate: below a container that is given by two values")
+		add("verdict: duplicate (" + m.conflict + ")")
+		addIf(m.throughPrim, "duplicate: a dotted key runs through a primitive (ErrExpectedObject accepted too)")
+		addIf(m.underShared, "duplicate: below a container that is given by two values")
 	case m.ambiguous:
-		r.Class("verdict: either (primitive vs nil/empty container)")
+		add("verdict: either (primitive vs nil/empty container)")
 	case !e.comparable():
-		r.Class("verdict: accepted, value not compared (names next to a list part that the generic view can not tell apart)")
+		add("verdict: accepted, value not compared (names next to a list part that the generic view can not tell apart)")
 	default:
-		r.Class("verdict: equal to the nested tree")
-		r.ClassIf(m.shared > 0, "container assembled from >=2 spellings")
-		r.ClassIf(m.contTwice > 0, "container given by two values, disjoint leaves: merged")
-		r.ClassIf(m.dottedNextToNested > 0, "dotted edge next to a nested sibling")
+		add("verdict: equal to the nested tree")
+		addIf(m.shared > 0, "container assembled from >=2 spellings")
+		addIf(m.contTwice > 0, "container given by two values, disjoint leaves: merged")
+		addIf(m.dottedNextToNested > 0, "dotted edge next to a nested sibling")
 	}
-	r.ClassIf(m.dotted == 0, "no dotted key")
-	r.ClassIf(m.idxSegs > 0, "index segment in a dotted key")
-	r.ClassIf(m.maxSegs >= 3, "dotted key with >=3 segments")
-	r.ClassIf(m.sameKeyTwice > 0, "an object holds one key twice")
-	r.ClassIf(m.decoyKeys > 0, "key with separator-like characters that stays whole")
-	r.ClassIf(m.escapedKeys > 0, "bracketed key under EscapePath")
-	r.ClassIf(m.numNames > 0, "integer literal that is a name under the options")
+	addIf(m.dotted == 0, "no dotted key")
+	addIf(m.idxSegs > 0, "index segment in a dotted key")
+	addIf(m.maxSegs >= 3, "dotted key with >=3 segments")
+	addIf(m.sameKeyTwice > 0, "an object holds one key twice")
+	addIf(m.decoyKeys > 0, "key with separator-like characters that stays whole")
+	addIf(m.escapedKeys > 0, "bracketed key under EscapePath")
+	addIf(m.numNames > 0, "integer literal that is a name under the options")
 }
 
 func usedClasses(r *runlog.R, used map[string]int) {
@@ -431,7 +436,7 @@ func runRepr(c ReprCase, r *runlog.R) error {
 	}
 	r.NonTrivialIf(kinds >= 2)
 	o.classes(r.Class)
-	e.classes(r)
+	e.classes(r.Class)
 	r.ClassIf(strict, "strict fingerprint compared")
 	r.ClassIf(c.T.K == "list", "top-level list")
 	return nil
@@ -739,7 +744,7 @@ func runFlat(c FlatCase, r *runlog.R) error {
 	}
 
 	r.NonTrivialIf(e.mustFail() || m.shared > 0)
-	e.classes(r)
+	e.classes(r.Class)
 	o.classes(r.Class)
 	r.ClassIf(capped, "insertion orders capped")
 	r.ClassIf(c.F.K == "list", "top-level list")
@@ -767,8 +772,12 @@ var subDup = runlog.Register(&runlog.Sub[FlatCase]{
 	Run:  runFlat,
 })
 
-func TestFlatten(t *testing.T)    { subFlat.Check(t, 18000, 800000) }
-func TestDuplicates(t *testing.T) { subDup.Check(t, 16000, 500000) }
+// The thorough counts of the sub-checks that build many struct types are
+// bounded by memory: reflect keeps every type made by StructOf (and its
+// pointer type) for ever, about 10 KB per case here; 16 shards share one
+// machine.
+func TestFlatten(t *testing.T)    { subFlat.Check(t, 18000, 500000) }
+func TestDuplicates(t *testing.T) { subDup.Check(t, 16000, 300000) }
 
 // ---------------------------------------------------------------------------
 // (d) one value under several option sets, one after the other
@@ -911,12 +920,22 @@ func runHist(c HistCase, r *runlog.R) error {
 	r.ClassIf(len(tags) >= 2, "the same types under >=2 struct tags")
 	r.ClassIf(len(tags) >= 2 && used["struct"]+used["*struct"] > 0 && sawStruct, "the same struct types under >=2 struct tags")
 	r.ClassIf(len(seps) >= 2, "the same input under >=2 separators (or none)")
+	// the classes of the steps, each counted once per case
+	seen := map[string]bool{}
+	once := func(l string) {
+		if !seen[l] {
+			seen[l] = true
+			r.Class(l)
+		}
+	}
 	for _, e := range exps {
-		e.classes(r)
-		e.o.classes(r.Class)
+		e.classes(once)
+		e.o.classes(once)
 	}
 	for si, st := range c.Steps {
-		r.ClassIf(st.Merge && outs[si].applied, "step through New+Merge")
+		if st.Merge && outs[si].applied {
+			once("step through New+Merge")
+		}
 	}
 	if c.Planted != "" {
 		r.Class("planted:" + c.Planted)
@@ -932,6 +951,6 @@ var subHist = runlog.Register(&runlog.Sub[HistCase]{
 	Run:  runHist,
 })
 
-func TestOptionHistory(t *testing.T) { subHist.Check(t, 16000, 500000) }
+func TestOptionHistory(t *testing.T) { subHist.Check(t, 16000, 300000) }
 
 func TestReplay(t *testing.T) { runlog.ReplayMain(t) }
